@@ -1,5 +1,5 @@
 """C03 - skeptical acceptance answers match the semantics (narrow clauses only)"""
-from . import accept, cli, provenance
+from . import accept, cli, provenance, progress
 
 
 def run(ctx):
@@ -13,6 +13,8 @@ def run(ctx):
     provenance.rule_literal_provenance(ctx, 'skeptical')
     provenance.rule_fresh_solver_per_encoding(ctx, 'skeptical')
     provenance.rule_range_encoding(ctx)
+    progress.rule_blocking(ctx)
+    progress.rule_selector_freshness(ctx)
     accept.rule_stage_layering(ctx, 'skeptical')
     ctx.assume("rustc's MIR and resolved callees; the tables stated in the property (DS-CO through the grounded solver)")
     return (
